@@ -273,7 +273,7 @@ class ParameterList(object):
         elif key == "dykstra.d_tol":
             type_str, nonetype_ok, lower, upper = 'float', False, 0.0, None
         elif key == "dykstra.max_iters":
-            type_str, nonetype_ok, lower, upper = 'int', False, 0, None
+            type_str, nonetype_ok, lower, upper = 'int', False, 1, None
         elif key == "matrix_rank.r_tol":
             type_str, nonetype_ok, lower, upper = 'float', False, 0.0, None
         elif key == "func_tol.criticality_measure":
